@@ -475,7 +475,7 @@ impl Oti {
             FECEncodingID::ReedSolomonGF28 => 0xFFFFFFFFFFFF, // 48 bits max
             FECEncodingID::ReedSolomonGF28UnderSpecified => 0xFFFFFFFFFFFF, // 48 bits max
             FECEncodingID::RaptorQ => 0xFFFFFFFFFFF, // 40 bits max
-            FECEncodingID::Raptor => 0xFFFFFFFFFFFF, // 48 bits max
+            FECEncodingID::Raptor => 0xFFFFFFFFFF, // 40 bits max
         };
 
         let max_sbn = self.max_source_blocks_number();
